@@ -605,6 +605,11 @@ func (c08Oracle) AfterAdmin(c *tableCtx, op *Op, pan any, applied bool) *Violati
 		path, _ := FixedWitness(mr.P)
 		if o0 := c.probe("OPTIONS", path); o0.Zero {
 			return mk("options-auto", "options-missing", fmt.Sprintf("OPTIONS %s on a live pattern reached CallFunc with the zero handler", path))
+		} else if o0.Panic == "" && o0.Kind == K404 {
+			// "OPTIONS ... cannot be removed while another method remains": the pattern is live in the model
+			return mk("options-auto", "options-404", fmt.Sprintf("OPTIONS %s -> 404 although %s is live with methods %v", path, pat, sortedKeys(strSetOfHandlers(mr))))
+		} else if o0.Panic == "" && o0.Pattern == pat && o0.Kind != KOptions {
+			return mk("options-auto", "options-not-automatic", fmt.Sprintf("OPTIONS %s on live pattern %s -> %s", path, pat, o0.Key()))
 		}
 		og := c.probe("GET", path)
 		if og.Panic != "" || og.Zero || og.Pattern != pat {
